@@ -25,4 +25,6 @@ Definition wf_case (c : case) : bool :=
   | CLock db _ _ _ _ _ _ => wf_db db
   | CTSelect udb _ _ pol _ _ _ _ => nodup_z (map u_id udb) && wf_policy pol
   | CShield udb e _ _ pol _ _ _ _ _ _ _ => nodup_z (map u_id udb) && wf_policy pol && (0 <=? e_target e)
+  | CStore db udb _ _ _ post upost =>
+      nodup_refs (refs_of db) && nodup_refs (refs_of post) && nodup_z (map u_id udb) && nodup_z (map u_id upost)
   end.
